@@ -40,6 +40,9 @@ def trees(values: list[dict]) -> list[Any]:
     out.append(("plain", R("VMany", {}, "multi_files", items=(R("VLeaf", {"v": 1}, "a_file"), R("VLeaf", {"v": 2}, "a_textfile"), R("VReq", {}, "a_textfile", child=R("VLeaf", {"v": 3}, "a_file"))))))
     out.append(("plain", R("VSlot", {"v": 1}, "a", kid=R("VMany", items=(R("VSlot", {"v": 2}, "xml"), R("VLeaf", {"v": 3}))))))
     out.append(("plain", R("VMany", {}, "multi_equal_sources", items=(R("VLeaf", {"v": 1}, "multi_equal_sources"), R("VReq", {}, "a", child=R("VLeaf", {"v": 2}, "multi"))))))
+    from models.shapes import exotic_shapes
+
+    out.extend(("plain", x) for x in exotic_shapes())
     out.append(("twins-reversed", R("VMany", items=(R("VLeaf", {"v": 1}), R("VReq", child=R("VLeaf", {"v": 1})), R("VLeaf", {"v": 1})))))
     return out
 
@@ -88,6 +91,7 @@ def make_harness(cases):
             share_classes.setdefault(id(n), []).append(k)
         opts = {SOURCE_OPTIMIZED_SERIALIZATION_KEY: True} if optimized else None
         saved_sources = Source.all_as_dict() if optimized else None
+        plain_before = root.to_json()  # the plain (option-free) form of the tree, as text
         if fmt == "dict":
             data = root.as_dict(serialization_options=opts)
         elif fmt == "json":
@@ -178,6 +182,12 @@ def make_harness(cases):
                 e.fail("shared-node-no-longer-shared", scenario=scenario)
         if liveness == "all-alive" and not (back == alive[0]):
             e.fail("result-not-equal-to-original", scenario=scenario)
+        # the tree read back is written again, without options: the same plain text as before
+        # (whatever options the two calls above carried)
+        plain_after = back.to_json()
+        if plain_after != plain_before:
+            scenario.update(plain_before=plain_before[:200], plain_after=plain_after[:200])
+            e.fail("plain-serialization-of-the-result-differs-from-that-of-the-original", scenario=scenario)
         e.distinct((cno, twins, fmt, optimized, liveness, scenario.get("alive_subtree")))
         return scenario
 
